@@ -202,6 +202,7 @@ fn generate(rng: &mut Rng, index: u64) -> ConnScenario {
         wplan: vec![],
         cap_ns: secs(3600),
         prelude: vec![],
+        growth: None,
     };
     zero_time_noise(rng, &mut sc);
     if with_prior {
